@@ -222,6 +222,10 @@ fn parse(text: &str, allow_substvar: bool) -> Parse {
 
                 if self.current() == Some(IDENT) {
                     self.bump();
+                    // A version with an epoch ("1:2.0-1") is lexed as IDENT COLON IDENT
+                    while self.current() == Some(COLON) || self.current() == Some(IDENT) {
+                        self.bump();
+                    }
                 } else {
                     self.error("Expected version".to_string());
                 }
@@ -1308,14 +1312,20 @@ impl Relation {
         let vc = vc.as_ref()?;
         let constraint = vc.children().find(|n| n.kind() == CONSTRAINT);
 
-        let version = vc.children_with_tokens().find_map(|it| match it {
-            SyntaxElement::Token(token) if token.kind() == IDENT => Some(token),
-            _ => None,
-        });
+        // The version text: its IDENT tokens, and the COLON after an epoch
+        let version: String = vc
+            .children_with_tokens()
+            .filter_map(|it| match it {
+                SyntaxElement::Token(token) if token.kind() == IDENT || token.kind() == COLON => {
+                    Some(token.text().to_string())
+                }
+                _ => None,
+            })
+            .collect();
 
-        if let (Some(constraint), Some(version)) = (constraint, version) {
+        if let (Some(constraint), false) = (constraint, version.is_empty()) {
             let vc: VersionConstraint = constraint.to_string().parse().unwrap();
-            return Some((vc, (version.text().to_string()).parse().unwrap()));
+            return Some((vc, version.parse().unwrap()));
         } else {
             None
         }
